@@ -52,6 +52,11 @@ NOT theorems (observed on the real code by the harness on every explored case, s
      popt := fit f … ⊢ Admissible bounds popt ∧ constraints popt ≥ 0 ∧ S popt ≤ S p0 ∧
                         ∃ ε > 0, ∀ q admissible, ‖q − popt‖ < ε → S popt ≤ S q.
   What is missing is a model of scipy's optimisers.
+  Not covered at all: a weights callable TOGETHER with declared constraints — the code refuses
+  (`constrained_weighted_refused` is the model of that refusal), so for this combination of the
+  quantifier there is no fit and no clause is checked.  On the SLSQP path with shapes non-linear
+  in their parameters the residual clauses fail on the unchanged code in about 0.4 % of the fits
+  (known findings, one signature per clause / shape / size class of the gap).
   That the model's `_fit` inputs (function, data epoch, start-value token, call number) are the real
   code's is the correspondence check: the harness records, for every real `_fit`, the identity of
   the x/y objects that reach `fit_function`/`fit_constrained_function` and the `p0` handed over.
